@@ -25,10 +25,11 @@ func H(n string) string { return fmt.Sprintf(`namespace "urn:%s"; prefix %s;`, n
 
 var pool = []text{
 	{"g.yang", `module g { ` + H("g") + ` typedef t { type string { length "1..9"; } } identity base; leaf l { type t; } container c { leaf x { type int8; } } grouping gg { leaf gl { type t; } } rpc op; }`, "g", true},
-	{"h.yang", `module h { ` + H("h") + ` import g { prefix g; } identity d { base g:base; } augment /g:c { leaf y { type g:t; } } augment /g:op/g:input { leaf ai { type string; } } container hc { uses g:gg; leaf r { type identityref { base g:base; } } } deviation /g:l { deviate add { default dd; } } }`, "h", true},
+	{"h.yang", `module h { ` + H("h") + ` import g { prefix g; } identity d { base g:base; } grouping hg { leaf hl { type g:t; } } augment /g:c { leaf y { type g:t; } } augment /g:op/g:input { leaf ai { type string; } } container hc { uses g:gg; leaf r { type identityref { base g:base; } } } deviation /g:l { deviate add { default dd; } } }`, "h", true},
+	{"k.yang", `module k { ` + H("k") + ` import h { prefix h; } container kc { uses h:hg; leaf kr { type identityref { base h:d; } } } }`, "k", true},
 	{"r.yang", `module r { ` + H("r") + ` leaf l { type int8 { range 1..500; } } leaf u { type nosuch; } }`, "r", true},
 	{"gm.yang", `module gm { ` + H("gm") + ` include gsub; leaf q { type st; } }`, "gm", true},
-	{"gsub.yang", `submodule gsub { belongs-to gm { prefix gm; } typedef st { type int16; } container sc { leaf sl { type st; } } }`, "gsub", true},
+	{"gsub.yang", `submodule gsub { belongs-to gm { prefix gm; } import g { prefix g; } typedef st { type g:t; } container sc { leaf sl { type st; } uses g:gg; } }`, "gsub", true},
 	{"syntax.yang", `module s { ` + H("s") + ` leaf l { type string; }`, "", false},
 	{"b1.yang", `module b1 { ` + H("b1") + ` typedef bt { type nosuch; } bogus x; }`, "", false},
 	{"b2.yang", `module b2 { ` + H("b2") + ` container c { typedef bt2 { type int8; } } identity bi; leaf l { type string; } leaf m { bogus y; } }`, "", false},
